@@ -2886,10 +2886,19 @@ class SEVM:
         new_ex_true = None
         new_ex_false = None
 
-        if follow_true:
-            if target not in ex.pgm.valid_jumpdests():
-                raise InvalidJumpDestError(f"Invalid jump destination: 0x{target:X}")
+        if follow_true and target not in ex.pgm.valid_jumpdests():
+            err = InvalidJumpDestError(f"Invalid jump destination: 0x{target:X}")
+            if not follow_false:
+                raise err
 
+            # only the jumping direction fails: it gets its own path carrying the error,
+            # which is raised when that path comes out of the worklist (see run())
+            err_ex = self.create_branch(ex, cond_true, ex.pc)
+            err_ex.context.output.error = err
+            stack.push(err_ex)
+            follow_true = False
+
+        if follow_true:
             if follow_false:
                 new_ex_true = self.create_branch(ex, cond_true, target)
             else:
@@ -3106,7 +3115,10 @@ class SEVM:
 
                 # PathEndingException may not be immediately raised; it could be delayed until it comes out of the worklist
                 # see the assert cheatcode hanlder logic for the delayed case
-                if isinstance(ex.context.output.error, PathEndingException):
+                # the same goes for the EvmException of a branch that jumpi() found to be failing
+                if isinstance(
+                    ex.context.output.error, PathEndingException | EvmException
+                ):
                     raise ex.context.output.error
 
                 if ex.context.depth > MAX_CALL_DEPTH:
